@@ -6,6 +6,7 @@ import (
 
 	"github.com/ah-naf/borno/token"
 	"github.com/ah-naf/borno/utils"
+	"github.com/ah-naf/borno/vhook"
 )
 
 var keywords = map[string]token.TokenType{
@@ -61,6 +62,7 @@ func (s *Scanner) ScanTokens() []token.Token {
 
 // scanToken scans a single token
 func (s *Scanner) scanToken() {
+	vhook.LexStep()
 	c := s.advance()
 
 	switch c {
